@@ -48,7 +48,7 @@ func orderDependent(in *Input, st *sim.Stats) (dep bool) {
 			defer func() { recover() }()
 			ip := postscript.NewInterpreter()
 			ip.MaxOps = 4_000_000
-			ip.ExecuteString("userdict /forall { 1 index type /dicttype eq { userdict /VERIF-dict-forall true put } if systemdict /forall get exec } put")
+			ip.ExecuteString("userdict /forall { mark 2 index type /dicttype eq { userdict /VERIF-dict-forall true put } if cleartomark systemdict /forall get exec } put")
 			ip.Execute(bytes.NewReader(in.Data))
 			if _, seen := ip.UserDict["VERIF-dict-forall"]; seen {
 				dep = true
